@@ -489,6 +489,28 @@ def check(prog, rep):
     if not bad:
         rep.add('S7-input', 'xrspatial', 'public raster functions', 'no public function writes into an input raster (%d inputs checked)'
                 % sum(1 for ob in tmp.obs if ob.rule == 'P1'), 1, True)
+    # S8: task names.  dask identifies a task by its key; map_blocks / map_overlap derive it from a hash of the function and
+    # ALL arguments.  An explicit `name=` / `token=` replaces that hash: two lazy results with the same name are one task to
+    # the scheduler, so evaluating them together (or caching) silently gives one of them the other's blocks - unless the
+    # name is itself a hash of everything the blocks depend on (`tokenize(...)`).
+    from ..dasksites import sites_in
+    nsite = 0
+    for fn in prog.all_funcs():
+        if fn.is_lambda or fn.jit is not None:
+            continue
+        for st in sites_in(prog, fn):
+            nsite += 1
+            for kw_ in ('name', 'token'):
+                v = st.kwargs.get(kw_)
+                if v is None or (isinstance(v, ast.Constant) and v.value in (None, False)):
+                    continue
+                hashed = any(isinstance(x, ast.Call) and norm(x.func).split('.')[-1] == 'tokenize' for x in ast.walk(v))
+                rep.add('S8-name', fn, fn.qualname, '%s=%s' % (kw_, norm(v)[:80]), st.call.lineno, True if hashed else False,
+                        'the task name of a lazy result must identify everything its blocks depend on: an explicit %s that is not a '
+                        'tokenize(...) of the function and all its arguments makes different results share one task key' % kw_)
+    rep.add('S8-name', 'xrspatial', 'dask sites', 'task names left to dask at %d map_blocks / map_overlap sites' % nsite, 1, nsite >= 20,
+            'expected the chunked-evaluation sites of the package')
+    rep.floor('S8-name', 1)
     rep.floor('S1', 250)
     rep.floor('S2', 5)
     rep.floor('S3-parallel', 85)
